@@ -991,3 +991,158 @@ mut("C16", "record_always_spawns", "the entity's record spawns a fresh entity ev
         }"""))
 mut("C16", "mappings_range_not_reset", "the mappings range is not reset between ticks", ["Updates::clear/resets-mappings"],
     (UPDS, "        self.mappings = Default::default();\n        self.mappings_len = 0;\n", "        self.mappings_len = 0;\n"))
+
+
+# ====================================================================== behaviour-preserving refactors
+# Every check must stay silent on these (run with `python3 analysis/selftest.py --benign`).
+B = []
+
+
+def benign(name, desc, *edits):
+    B.append({"prop": "benign", "name": name, "desc": desc, "expect": [], "edits": list(edits)})
+
+
+benign("acks_match_instead_of_let_else", "receive_acks uses match instead of let-else",
+    ("src/server.rs", """                    let Ok(mut ticks) = clients.get_mut(client) else {
+                        // Connected, but not authorized clients don't have ticks.
+                        debug!("ignoring acknowledgment from non-authorized client `{client}`");
+                        break;
+                    };
+                    ticks.ack_mutate_message(
+                        client,
+                        &mut entity_buffer,
+                        change_tick.this_run(),
+                        mutate_index,
+                    );""", """                    match clients.get_mut(client) {
+                        Ok(mut ticks) => ticks.ack_mutate_message(
+                            client,
+                            &mut entity_buffer,
+                            change_tick.this_run(),
+                            mutate_index,
+                        ),
+                        Err(_) => {
+                            debug!("ignoring acknowledgment from non-authorized client `{client}`");
+                            break;
+                        }
+                    }"""))
+benign("check_protocol_inverted_if", "check_protocol tests for mismatch first",
+    ("src/server.rs", """    if **trigger == *protocol {
+        debug!("marking client `{}` as authorized", trigger.client);
+        commands.entity(trigger.client).insert(AuthorizedClient);
+    } else {
+        debug!(
+            "disconnecting client `{}` due to protocol mismatch (client: `{:?}`, server: `{:?}`)",
+            trigger.client, **trigger, *protocol
+        );
+        commands.server_trigger(ToClients {
+            mode: SendMode::Direct(trigger.client),
+            event: ProtocolMismatch,
+        });
+        events.write(DisconnectRequest {
+            client: trigger.client,
+        });
+    }""", """    if **trigger != *protocol {
+        debug!(
+            "disconnecting client `{}` due to protocol mismatch (client: `{:?}`, server: `{:?}`)",
+            trigger.client, **trigger, *protocol
+        );
+        commands.server_trigger(ToClients {
+            mode: SendMode::Direct(trigger.client),
+            event: ProtocolMismatch,
+        });
+        events.write(DisconnectRequest {
+            client: trigger.client,
+        });
+    } else {
+        debug!("marking client `{}` as authorized", trigger.client);
+        commands.entity(trigger.client).insert(AuthorizedClient);
+    }"""))
+benign("contains_early_return", "ConfirmHistory::contains with an early return instead of ||",
+    ("src/client/confirm_history.rs", "        ago >= u64::BITS || ((self.mask >> ago) & 1) == 1", "        if ago >= u64::BITS {\n            return true;\n        }\n        ((self.mask >> ago) & 1) == 1"))
+benign("is_empty_flatten", "Mutations::is_empty via flatten",
+    (MUTS, "self.standalone.is_empty() && self.related.iter().all(Vec::is_empty)", "self.standalone.is_empty() && self.related.iter().flatten().next().is_none()"))
+benign("generation_match", "deserialize_entity computes the generation with match/checked ops",
+    ("src/shared/entity_serde.rs", """    let generation = if has_generation {
+        postcard_utils::from_buf::<u32, _>(message)?
+            .checked_add(1)
+            .ok_or("entity generation is out of range")?
+    } else {
+        1u32
+    };""", """    let generation = match has_generation {
+        true => {
+            let stored: u32 = postcard_utils::from_buf(message)?;
+            match stored.checked_add(1) {
+                Some(generation) => generation,
+                None => return Err("entity generation is out of range".into()),
+            }
+        }
+        false => 1u32,
+    };"""))
+benign("hidden_check_negated_form", "collect_changes tests `!= Hidden` with nesting instead of continue",
+    ("src/server.rs", """                let visibility = updates.entity_visibility();
+                if visibility == Visibility::Hidden {
+                    continue;
+                }
+""", """                let visibility = updates.entity_visibility();
+                if !(visibility != Visibility::Hidden) {
+                    continue;
+                }
+"""))
+benign("reset_reordered", "server::reset clears in another order",
+    ("src/server.rs", """    *server_tick = Default::default();
+    buffered_events.clear();
+    related_entities.clear();
+    despawn_buffer.clear();
+    removal_buffer.clear();""", """    removal_buffer.clear();
+    despawn_buffer.clear();
+    related_entities.clear();
+    buffered_events.clear();
+    *server_tick = Default::default();"""))
+benign("tick_cmp_reordered_operands", "apply_mutate_messages writes the gate as `*update_tick < mutate.update_tick`",
+    ("src/client.rs", "        if mutate.update_tick > *update_tick {\n            return true;\n        }", "        if *update_tick < mutate.update_tick {\n            return true;\n        }"))
+benign("gate_le_form", "ServerEvent::receive_typed writes the gate as `!(tick <= update_tick)`",
+    (SE, "                if tick > update_tick {\n                    debug!(\"queuing event", "                if !(tick <= update_tick) {\n                    debug!(\"queuing event"))
+benign("ack_if_let", "ack_mutate_message uses if-let/else instead of let-else",
+    ("src/shared/replication/client_ticks.rs", """        let Some(mutate_info) = self.mutations.remove(&mutate_index) else {
+            debug!("received unknown `{mutate_index:?}` from client `{client}`");
+            return;
+        };
+""", """        let mutate_info = if let Some(mutate_info) = self.mutations.remove(&mutate_index) {
+            mutate_info
+        } else {
+            debug!("received unknown `{mutate_index:?}` from client `{client}`");
+            return;
+        };
+"""))
+benign("heap_cmp_reverse_wrapper_free", "TimedMessage::cmp compares tuples",
+    (LC, """        other
+            .timestamp
+            .cmp(&self.timestamp)
+            .then_with(|| other.sequence.cmp(&self.sequence))""", """        match other.timestamp.cmp(&self.timestamp) {
+            Ordering::Equal => other.sequence.cmp(&self.sequence),
+            ordering => ordering,
+        }"""))
+benign("scene_dedup_with_set", "scene export remembers exported ids in a HashSet",
+    ("src/scene.rs", """        let mut exported_ids = Vec::new();""", """        let mut exported_ids = bevy::platform::collections::HashSet::new();"""),
+    ("src/scene.rs", """                if exported_ids.contains(&component.id) {
+                    continue;
+                }
+                exported_ids.push(component.id);
+""", """                if !exported_ids.insert(component.id) {
+                    continue;
+                }
+"""))
+benign("removals_entry_api", "RemovalBuffer::update merges through remove + or_else with a local binding",
+    ("src/server/removal_buffer.rs", """        let mut removed_ids = self
+            .removals
+            .remove(&entity)
+            .unwrap_or_else(|| self.ids_buffer.pop().unwrap_or_default());""", """        let previous = self.removals.remove(&entity);
+        let mut removed_ids = match previous {
+            Some(ids) => ids,
+            None => self.ids_buffer.pop().unwrap_or_default(),
+        };"""))
+benign("set_status_nested_ifs", "RepliconClient::set_status with nested ifs",
+    ("src/shared/backend/replicon_client.rs", "        if self.is_connected() && !matches!(status, RepliconClientStatus::Connected) {", "        if self.is_connected() && status != RepliconClientStatus::Connected {"))
+benign("send_messages_local_bool", "send_messages computes the mutation gate into a local first",
+    ("src/server.rs", "        if !mutations.is_empty() || track_mutate_messages {", "        let send_mutations = !mutations.is_empty() || track_mutate_messages;\n        if send_mutations {"))
+BENIGN = B
